@@ -879,6 +879,8 @@ class LookupCorr(Corr):
 class C17(Prop):
     id = "C17"
     props_file = "Props/C17.v"
+    # redundant tie (core.gen_tie): these functions, translated from the source on every run, equal the hand model for all inputs
+    gen_tie_theorems = ["GenTie_get_now_frame", "GenTie_get_now_frame_outside", "GenTie_neighbour_search"]
     extra_props_files = ["Props/C17Slerp.v"]
     # the slerp theorems are about Coq's axiomatised real numbers: exactly these standard-library axioms, for that file only
     allowed_axioms = {"Props/C17Slerp.v": ["ClassicalDedekindReals.sig_not_dec", "ClassicalDedekindReals.sig_forall_dec",
